@@ -342,11 +342,15 @@ void _vnacal_teardown_parameter_collection(vnacal_t *vcp)
     for (int i = vprmcp->vprmc_allocation - 1; i >= 0; --i) {
 	vnacal_parameter_t *vpmrp = vprmcp->vprmc_vector[i];
 
-	if (vpmrp != NULL) {
-	    assert(!vpmrp->vpmr_deleted);
+	/*
+	 * A parameter that's held by another parameter at a lower
+	 * index (possible when slots are re-used), or that has been
+	 * deleted while still held, remains in the table until its
+	 * holder is released below.
+	 */
+	if (vpmrp != NULL && !vpmrp->vpmr_deleted) {
 	    vpmrp->vpmr_deleted = true;
 	    _vnacal_release_parameter(vpmrp);
-	    assert(vprmcp->vprmc_vector[i] == NULL);
 	}
     }
     free((void *)vprmcp->vprmc_vector);
